@@ -126,7 +126,12 @@ func vClassify(le *LinkError) (int, int, string, uint64) {
 	case OutgoingFailureInsufficientBalance:
 		detail = 2
 	}
-	if detail != 0 {
+	switch detail {
+	case 1:
+		name += "/ExceedsMax"
+	case 2:
+		name += "/InsufficientBalance"
+	case 9:
 		name += fmt.Sprintf("/%v", le.FailureDetail)
 	}
 	switch m := msg.(type) {
@@ -507,6 +512,37 @@ func vWild(r *vrng, c *vPolCase) {
 	}
 }
 
+// vFixed are the witnesses of the Coq theorems C09_wrap_refuted_outside and
+// C09_fee_wrap_refuted_outside and the boundary pair of Policy/Examples.v;
+// they are replayed on the real link at the start of every run (channel 3,
+// the 10 BTC one).
+func vFixed() []*vPolCase {
+	w := func(cls string, in, out uint64, inexp, outexp uint32, ibase,
+		irate int32, height uint32) *vPolCase {
+
+		return &vPolCase{
+			Kind: "fwd", Cls: cls, Min: 1000, Base: 1000, Rate: 1,
+			Delta: 40, Rej: 3, MaxCltv: 2016, UpdOk: true,
+			In: in, Out: out, InExp: inexp, OutExp: outexp,
+			IBase: ibase, IRate: irate, Height: height,
+		}
+	}
+	a := w("witness:accept-expired", 2002, 1000, 140, 100, 0, 0,
+		4294967295)
+	b := w("witness:reject-valid", 2002, 1000, 4294966346, 4294966306, 0,
+		0, 4294966296)
+	f := w("witness:fee-overflow", 930000000000, 930000000000, 1140, 1100,
+		0, 10000000, 1000)
+	f.Min, f.Base, f.Rate = 0, 0, 0
+	x1 := w("example:boundary", 5007987, 5000000, 800200, 800100, -500,
+		-1000, 800000)
+	x1.Max, x1.Base, x1.Rate, x1.Delta = 4950000000, 1000, 2500, 80
+	x2 := *x1
+	x2.In--
+
+	return []*vPolCase{a, b, f, x1, &x2}
+}
+
 func TestVerifPolicy(t *testing.T) {
 	out := vOpenOut()
 	defer out.close()
@@ -561,14 +597,21 @@ func TestVerifPolicy(t *testing.T) {
 	}
 
 	var hash [32]byte
-	for ci := 0; ci < ncases; ci++ {
+	fixed := vFixed()
+	for ci := 0; ci < ncases+len(fixed); ci++ {
 		r := master.fork(uint64(ci))
 		c := &vPolCase{Case: ci, Kind: "fwd"}
 		chi := vBaseline(r, c, bws)
+		if ci < len(fixed) {
+			c, chi = fixed[ci], len(chans)-1
+			c.Case = ci
+		}
 
 		// class of the case
 		sel := r.intn(100)
 		switch {
+		case ci < len(fixed):
+
 		case sel < 12:
 			c.Cls = "valid"
 
@@ -604,7 +647,7 @@ func TestVerifPolicy(t *testing.T) {
 				vPerturb(r, c, vPick(r, vPerturbs...))
 			}
 		}
-		if r.intn(8) == 0 {
+		if r.intn(8) == 0 && ci >= len(fixed) {
 			c.Kind = "transit"
 		}
 
